@@ -26,3 +26,7 @@ add("C03", "symbolic execution of the Geometry classes' integrate/normalize and 
     "Bounded symbolic model checking: weighted-sum, linearity, resolution independence (integer factors incl. 3 and 6), normalisation and history independence are decided for all real data/sizes/weights; the inductive cache-state step covers call sequences of any length for scalar volumes.",
     "cv2.resize(INTER_AREA) is a contract stub (exact area resampling), validated against real cv2 on constants each run; native shapes bounded (4 / 2x4 / 2x2x2); exact reals.",
     "DESIGN.md §5 C03")
+add("C08", "symbolic execution of the formulation / back-end dispatch and the hand-written CSC row/column surgery (symx with a scipy.sparse stand-in whose storage layout comes from real scipy shadows); back-ends = exact-solve contract stubs; z3 decides that the reconstructed solution satisfies the original full system",
+    "Bounded symbolic model checking: for every enumerated grid shape, formulation and back-end the real linear_solve / eliminate_* code runs on symbolic positive face weights and right-hand sides; the back-end returns a fresh vector satisfying the reduced system it was handed, and z3 proves all block rows of the ORIGINAL system hold, for successive systems with and without solver reuse; uniqueness of the solution (homogeneous system) on small shapes.",
+    "Linear solvers are exact (contract stubs, incl. SuperLU's in-place index sorting); sparsity structure is the generic one (no exact cancellation); shapes bounded as in the evidence; PETSc outside.",
+    "DESIGN.md §5 C08")
